@@ -568,16 +568,34 @@ func c15DecodeOne(dec *WALDecoder) (tok string) {
 	return "m:" + c15Digest(c15Render(m.Msg, m.Time))
 }
 
-// decodes until eof (cont) or the first error; returns the observable tokens
+// set when a Decode call was seen to allocate far more than the message size limit: the rest of
+// the run is cut short (every further damaged length field would cost gigabytes again)
+var c15Abort bool
+
+const c15AllocSlack = 64 << 20
+
+// decodes until eof (cont) or the first error; returns the observable tokens.  A Decode call that
+// takes suspiciously long is checked against the allocation counter.
 func c15DecodeAll(rd io.Reader, cont bool) []string {
 	dec := NewWALDecoder(rd)
 	var toks []string
+	var before, after runtime.MemStats
+	runtime.ReadMemStats(&before)
 	for i := 0; ; i++ {
 		if i > 200000 {
 			toks = append(toks, "LOOP")
 			break
 		}
+		t0 := time.Now()
 		t := c15DecodeOne(dec)
+		if time.Since(t0) > 40*time.Millisecond {
+			runtime.ReadMemStats(&after)
+			if after.TotalAlloc-before.TotalAlloc > uint64(i+1)*uint64(4*maxMsgSizeBytes)+c15AllocSlack {
+				toks = append(toks, "ALLOC")
+				c15Abort = true
+				break
+			}
+		}
 		toks = append(toks, t)
 		if t == "eof" || t == "PANIC" || t == "err?" {
 			break
@@ -811,6 +829,9 @@ func (c *c15Case) checkSeq(what string, toks []string, exp []c15Written, cont, s
 		case t == "PANIC":
 			c.o.Fail(c.step, "panic-decode", what)
 			return
+		case t == "ALLOC":
+			c.o.Fail(c.step, "allocation-above-limit", what+": a Decode call allocated far more than maxMsgSizeBytes")
+			return
 		case t == "LOOP" || t == "err?" || t == "c:?":
 			c.o.Fail(c.step, "unclassified-result", what+" tok="+t)
 			return
@@ -934,6 +955,9 @@ func TestVerifC15(t *testing.T) {
 		c := &c15Case{o: o, r: root.Fork(uint64(i)), idx: i, tmp: filepath.Join(tmp, fmt.Sprintf("c%d", i)), table: map[string]c15Entry{}}
 		c.run(*c15Tier)
 		os.RemoveAll(c.tmp)
+		if c15Abort {
+			break
+		}
 	}
 	o.Close(*c15Seed)
 }
@@ -1374,6 +1398,9 @@ func (c *c15Case) searchObs(wal *BaseWAL, h int64, ign bool) (obs string) {
 // one corrupted variant: reader kind k ("f" os.File on the flattened log, "g" GroupReader over the re-split files)
 func (c *c15Case) variant(k string, cont bool, eds []c15Edit, exp []c15Written, strict bool, allocCheck bool) {
 	o := c.o
+	if c15Abort {
+		return
+	}
 	data := c15Apply(c.base, eds)
 	c.nvar++
 	dir := filepath.Join(c.tmp, fmt.Sprintf("v%d", c.nvar))
@@ -1451,6 +1478,9 @@ func (c *c15Case) checkTooBig(data []byte, toks []string, k string) {
 
 func (c *c15Case) repairVariant(eds []c15Edit, pureTruncation bool) {
 	o := c.o
+	if c15Abort {
+		return
+	}
 	data := c15Apply(c.base, eds)
 	c.nvar++
 	dir := filepath.Join(c.tmp, fmt.Sprintf("r%d", c.nvar))
@@ -1500,6 +1530,9 @@ func (c *c15Case) repairVariant(eds []c15Edit, pureTruncation bool) {
 }
 
 func (c *c15Case) searchVariant(h int64, ign bool, eds []c15Edit) {
+	if c15Abort {
+		return
+	}
 	data := c15Apply(c.base, eds)
 	c.nvar++
 	dir := filepath.Join(c.tmp, fmt.Sprintf("s%d", c.nvar))
